@@ -82,7 +82,7 @@ static LongInt CutAdr(LongInt Adr) {
     if ((Adr & SignMask) != 0) {
         return (Adr | ORMask);
     } else {
-        return (Adr & SegLimits[SegCode]);
+        return (Adr & ~ORMask);
     }
 }
 
@@ -1215,8 +1215,14 @@ static void SwitchTo_AVR(void* pUser) {
     CodeAdrIntType = GetSmallestUIntType(SegLimits[SegCode]);
     DataAdrIntType = GetSmallestUIntType(SegLimits[SegData]);
 
-    SignMask = (SegLimits[SegCode] + 1) >> 1;
-    ORMask   = ((LongInt)-1) - SegLimits[SegCode];
+    /* jump distances are counted in words, also when the code segment is addressed in bytes */
+
+    {
+        LongWord const WordLimit = CodeSegSize ? SegLimits[SegCode] : (SegLimits[SegCode] >> 1);
+
+        SignMask = (WordLimit + 1) >> 1;
+        ORMask   = ((LongInt)-1) - WordLimit;
+    }
 
     AddONOFF("WRAPMODE", &WrapFlag, WrapFlagName, False);
     AddONOFF("PACKING", &Packing, PackingName, False);
